@@ -17,27 +17,36 @@ type uvPoint struct {
 	tag string
 }
 
+// quantSlack is the rounding noise allowed in the monotonicity of Quantile: iterative
+// inverses and piecewise rational approximations are not monotone at the last bits
+// (e.g. NormalQuantile across |p-1/2| = 0.425, InvRegIncBeta for p one ulp apart).
+func quantSlack(a, b float64) float64 { return tolMonoQuant * (math.Abs(a) + math.Abs(b)) }
+
 const (
-	tolQInvTail = 1e-6 // far-tail quantile points: |CDF(Quantile(p))-p| <= 1e-6*min(p,1-p) replaces the absolute 1e-12
-	tolSurvRel  = 1e-9  // |S+C-1| <= tolSurvRel*min(S,C) + tolSurvAbs
-	tolSurvAbs  = 1e-15 //
-	tolProbExp  = 1e-12 // Prob vs exp(LogProb), relative
-	tolCellAbs  = 1e-7  // CDF(b)-CDF(a) vs quadrature, absolute (continuous)
-	tolCellRel  = 1e-7  //   ... plus relative to the cell probability
-	tolMassAbs  = 1e-7  // total mass vs 1
-	tolPMF      = 1e-10 // discrete: CDF(k)-CDF(k-1) vs Prob(k), absolute
-	tolQInvRel  = 1e-8  // |CDF(Quantile(p))-p| <= tolQInvRel*min(p,1-p) + tolQInvAbs
-	tolQInvAbs  = 1e-12
-	tolMoment   = 1e-6 // closed-form moments vs quadrature: relative, plus absolute tolMoment*scale
-	tolStdDev   = 1e-12
-	tolMedian   = 1e-9
-	tolModeRel  = 1e-9
-	tolScoreRel = 1e-5
-	tolScoreAbs = 1e-5 // times 1/scale of the parameter
-	modeGridN   = 2000
-	fitN        = 400
-	tolFitLL    = 1e-9
-	tolFitParam = 1e-9
+	tolMonoQuant     = 1e-12 // relative noise allowed in "Quantile non-decreasing"
+	tolMonoCDF       = 1e-13 // relative noise allowed in "CDF non-decreasing"
+	momMargin        = 0.25
+	tolQInvBetaUpper = 2e-7  // see chk in continuous()
+	tolQInvTail      = 1e-6  // far-tail quantile points: |CDF(Quantile(p))-p| <= 1e-6*min(p,1-p) replaces the absolute 1e-12
+	tolSurvRel       = 1e-9  // |S+C-1| <= tolSurvRel*min(S,C) + tolSurvAbs
+	tolSurvAbs       = 1e-15 //
+	tolProbExp       = 1e-12 // Prob vs exp(LogProb), relative
+	tolCellAbs       = 1e-7  // CDF(b)-CDF(a) vs quadrature, absolute (continuous)
+	tolCellRel       = 1e-7  //   ... plus relative to the cell probability
+	tolMassAbs       = 1e-7  // total mass vs 1
+	tolPMF           = 1e-10 // discrete: CDF(k)-CDF(k-1) vs Prob(k), absolute
+	tolQInvRel       = 1e-8  // |CDF(Quantile(p))-p| <= tolQInvRel*min(p,1-p) + tolQInvAbs
+	tolQInvAbs       = 1e-12
+	tolMoment        = 1e-6 // closed-form moments vs quadrature: relative, plus absolute tolMoment*scale
+	tolStdDev        = 1e-12
+	tolMedian        = 1e-9
+	tolModeRel       = 1e-9
+	tolScoreRel      = 1e-5
+	tolScoreAbs      = 1e-5 // times 1/scale of the parameter
+	modeGridN        = 2000
+	fitN             = 400
+	tolFitLL         = 1e-9
+	tolFitParam      = 1e-9
 )
 
 var pGrid = []float64{1e-6, 1e-3, .01, .1, .25, .5, .75, .9, .99, 1 - 1e-3, 1 - 1e-6}
@@ -48,6 +57,28 @@ func genUV(gen *vlib.G) {
 		for _, p := range sp.grid(gen.Thorough()) {
 			p := p
 			gen.Case(pkey(sp, p), func(t *vlib.T) { checkUV(t, sp, p) })
+		}
+	}
+}
+
+// genUVFit: Fit, SuffStat and ConjugateUpdate are the only distuv methods that reach the
+// floats/stat summation kernels, so they form their own group, which also runs in the
+// noasm configuration.
+func genUVFit(gen *vlib.G) {
+	for _, sp := range uvSpecs() {
+		sp := sp
+		for _, p := range sp.grid(gen.Thorough()) {
+			p := p
+			d := sp.mk(p, nil)
+			if _, ok := reflect.PointerTo(reflect.TypeOf(d)).MethodByName("Fit"); !ok {
+				break
+			}
+			gen.Case(pkey(sp, p), func(t *vlib.T) {
+				c := &uvCtx{r: &rep{t: t}, t: t, sp: sp, p: p, d: sp.mk(p, nil), lo: sp.lo(p), hi: sp.hi(p)}
+				c.fit()
+				t.Nontrivial()
+				t.Outcome(sp.name)
+			})
 		}
 	}
 }
@@ -77,6 +108,7 @@ type uvCtx struct {
 	qp     []float64
 	evals  int64
 	momTol float64
+	maxMom int
 	// probLogMismatch: Prob and exp(LogProb) disagree somewhere; the quadrature then
 	// integrates Prob (the identities are stated for Prob) instead of exp(LogProb).
 	probLogMismatch bool
@@ -107,7 +139,6 @@ func checkUV(t *vlib.T, sp uvSpec, p []float64) {
 		c.momentsOnly()
 	}
 	c.score()
-	c.fit()
 	t.Count("uv_method_evaluations", c.evals)
 	t.Detail(map[string]any{"methods": ms, "lo": g(c.lo), "hi": g(c.hi), "moment_order": g(c.ord)})
 }
@@ -271,7 +302,7 @@ func (c *uvCtx) pointwise(x float64, tag string) {
 		}
 		if hp && hl {
 			e := math.Exp(lv)
-			if !(pv == e || relErr(pv, e) <= tolProbExp) {
+			if !(pv == e || relErr(pv, e) <= tolProbExp || pv < 1e-290 && e < 1e-290) { // denormal results carry few digits
 				c.probLogMismatch = true
 				cl := ""
 				if c.sp.name == "Logistic" && (c.p[0] != 0 || c.p[1] != 1) {
@@ -306,7 +337,7 @@ func (c *uvCtx) continuous() {
 			r.fail("Quantile-in-support", "p="+g(p), "Quantile=%v not a finite point of the support [%v,%v]", x, c.lo, c.hi)
 			return
 		}
-		if n := len(c.qx); n > 0 && !(x >= c.qx[n-1]) {
+		if n := len(c.qx); n > 0 && !(x >= c.qx[n-1]-quantSlack(x, c.qx[n-1])) {
 			r.fail("Quantile-monotone", "p="+g(p), "Quantile(%v)=%v < Quantile(%v)=%v", p, x, c.qp[n-1], c.qx[n-1])
 			return
 		}
@@ -377,7 +408,7 @@ func (c *uvCtx) continuous() {
 				}
 				ci++
 			}
-			if x < prevX {
+			if x < prevX-quantSlack(x, prevX) {
 				r.cls(c.tailClass(x, p), "Quantile-monotone", "p="+g(p), "Quantile(%v)=%v < Quantile(%v)=%v", p, x, prevP, prevX)
 			}
 			prevX, prevP = x, p
@@ -459,7 +490,7 @@ func (c *uvCtx) continuous() {
 			if q.x < c.lo || q.x > c.hi {
 				continue // outside: judged by the 0/1 rule only
 			}
-			if cv < prev {
+			if cv < prev-tolMonoCDF*prev {
 				r.fail("CDF-monotone", "x="+g(q.x), "CDF(%v)=%v < CDF(%v)=%v", q.x, cv, prevx, prev)
 			}
 			prev, prevx = cv, q.x
@@ -475,14 +506,29 @@ func (c *uvCtx) continuous() {
 			tol := tolQInvRel*tail + math.Min(tolQInvAbs, tolQInvTail*tail) + c.cdfAllow(x)
 			if p > 0.5 {
 				tol += 4 * 0x1p-53
+				// don't-care zone: cephes incbi inverts I_x itself (not its complement) when a <= 1 or
+				// b <= 1, so the quantiles of the beta-based laws beyond 1-1e-6 are only good to
+				// about 6e-8 in probability (observed; NOTES.md O5)
+				switch c.sp.name {
+				case "Beta", "F", "StudentsT":
+					if p > 1-1e-6 {
+						tol = math.Max(tol, tolQInvBetaUpper)
+					}
+				}
 			}
 			if math.Abs(cv-p) <= tol {
 				return
 			}
 			var lo, hi float64
+			// neighbours: one ulp, but never inside the denormal range (products with the
+			// parameters would underflow there)
+			dn, up := math.Nextafter(x, math.Inf(-1)), math.Nextafter(x, math.Inf(1))
+			if math.Abs(x) < 1e-290 {
+				dn, up = x-1e-290, x+1e-290
+			}
 			if catch(func() {
-				lo = c.cdf(math.Max(c.lo, math.Nextafter(x, math.Inf(-1))))
-				hi = c.cdf(math.Min(c.hi, math.Nextafter(x, math.Inf(1))))
+				lo = c.cdf(math.Max(c.lo, dn))
+				hi = c.cdf(math.Min(c.hi, up))
 			}) == nil && lo <= p && p <= hi {
 				c.t.Count("quantiles_right_at_float_resolution_only", 1)
 				return
@@ -537,12 +583,15 @@ func (c *uvCtx) continuous() {
 		}
 	}
 	cen := c.qx[len(c.qx)/2] // median
+	// a moment whose order is within 0.25 of the existence boundary has a tail integrand
+	// x^(-1-delta), delta < 0.25, which no panel sequence sums: it is not compared (counted)
 	maxMom := 0
 	for k := 1; k <= 4; k++ {
-		if float64(k) < c.ord {
+		if float64(k)+momMargin <= c.ord {
 			maxMom = k
 		}
 	}
+	c.maxMom = maxMom
 	_, wantEnt := c.d.(hasEntropy)
 	nanSeen := false
 	logf := func(x float64) float64 {
@@ -654,8 +703,18 @@ func (c *uvCtx) tailClass(x, p float64) string {
 		} else if c.sp.name == "Chi" {
 			arg = x * x / 2
 		}
-		if p < 0.25 && arg < 1e-5 {
+		if p < 0.25 && !(arg >= 1e-5) {
 			return "gammaincreginv-tiny-result"
+		}
+	case "Exponential", "Weibull", "Laplace":
+		// -log(1-p) resp. log(1+2(p-1/2)) cancel for small p
+		if p < 1e-6 {
+			return "quantile-lower-tail-cancellation"
+		}
+	case "StudentsT":
+		// 1 - t cancels in sqrt(nu (1-t)/t) next to the median
+		if math.Abs(p-0.5) < 1e-6 {
+			return "studentst-quantile-near-median"
 		}
 	case "F":
 		z := c.p[0] * x / (c.p[0]*x + c.p[1])
@@ -693,6 +752,10 @@ func (c *uvCtx) moment(name string, k int, q, absScale float64, get func() (floa
 			}
 			c.r.cls(cl, name+"-must-not-exist", "", "%s=%v but E|X|^%d is infinite for this parameter (moments exist only below order %v); want NaN or Inf", name, v, k, c.ord)
 		}
+		return
+	}
+	if sp := c.sp.points; sp == nil && k > c.maxMom {
+		c.t.Count("moments_too_close_to_the_existence_boundary_not_compared", 1)
 		return
 	}
 	if !closeRA(v, q, c.momTol, c.momTol*absScale) {
@@ -748,6 +811,15 @@ func (c *uvCtx) mode(modeV float64) {
 		return
 	}
 	pm := pf.Prob(modeV)
+	// the mode is right when it is right at float resolution: a density that drops to 0
+	// exactly at an end of the support (Beta{2, 1+2^-52} at 1) must not be judged there
+	for _, nbx := range []float64{math.Nextafter(modeV, math.Inf(-1)), math.Nextafter(modeV, math.Inf(1))} {
+		if nbx >= c.lo && nbx <= c.hi {
+			if v := pf.Prob(nbx); v > pm {
+				pm = v
+			}
+		}
+	}
 	best, bestx := math.Inf(-1), math.NaN()
 	try := func(x float64) {
 		c.evals++
